@@ -475,6 +475,8 @@ def parse_url(url_text: bytes) -> list[Node]:
             )
         )
     if url.fragment:
+        if not url.query and url_text[offset : offset + 1] == b"?":
+            offset += 1  # empty query: the ? is still there
         offset += 1  # fragment starts with #
         out.append(
             Node(
